@@ -67,3 +67,11 @@ add("C17", "RubiksCube for ALL n: rubik_l1_move_is_physical (the transliterated 
            "bijectivity, cw∘ccw = id, half = cw², cw⁴ = id, conservation, encodings mutually inverse, solved test, reachability/solvability, plus a kernel-evaluated "
            "cross-check of the tables for n = 2..7; SlidingTilePuzzle for all grid sizes: move_is_swap, opposite_cancel, conserves_multiset, solved_iff_goal, "
            "walk_solvable; every move of sizes 2..7 on all-distinct-sticker cubes and the sliding puzzle state spaces run through the real code and the model", _note)
+
+add("C02", "scan_eq_rollout, rollout_append, vmap_step_get/reset_get over an arbitrary Env (in the model reset/step are functions: purity by construction); the "
+           "property is DECIDED by the differential run: one reachable transition per configuration executed as eager / jit / vmap(1,2,5 at a random index) / "
+           "scan(1,3) / fresh instance / after interleaved calls / re-jit, all compared with the single value a pure function prescribes; argument contents "
+           "snapshotted; jaxprs effect-free, callback-free and stable",
+    "partial by nature: Python-side hidden state, in-place mutation and XLA/transform-dependent numerics cannot be exhibited by a Lean model; they are covered by "
+    "the differential run only (floats within 2e-5). Eager reset of the recursive-division maze generators (Maze, Cleaner) is skipped: it needs minutes.",
+    technique="differential execution of program variants against the pure reference (translation validation) + Lean algebra of scan/vmap/rollout", cat="translation_validation")
